@@ -173,6 +173,17 @@ class DomFamily:
             "the harness labels referents/ids in creation order; an observation is the table label -> (parent, children, name, class, properties) of every DOM plus descendants() order",
             "the Coq models are tied to dom.rs by this differential run only (hand-written model)",
         ]
+        # ---- C09 / C10: the models' assumption about Ref::new(), observed across threads on the implementation
+        if pid in ("C09", "C10"):
+            per = "300" if tier == "quick" else "20000"
+            rc, o, _ = vlib.run([vlib.harness_bin(), "refgen-run", "--threads", "8", "--per", per], timeout=3000)
+            out.coverage["refgen"] = o.strip().split("\n")[0] if o.strip() else "no output"
+            bad = [l for l in o.split("\n") if l.startswith(pid + " refgen")]
+            if rc != 0:
+                bad.append(pid + " refgen: harness crashed: " + o[-300:])
+            if bad:
+                rp = vlib.write_replay(pid, "refgen", bad[0], ["rbxverif refgen-run --threads 8 --per " + per] + bad)
+                out.violation(bad[0], rp, True)
         # ---- C12 only: the generator of fresh ids (translator pattern + concurrent stress on the implementation)
         if pid == "C12":
             src = open(os.path.join(vlib.REPO, "rbx_types/src/unique_id.rs")).read()
@@ -228,6 +239,12 @@ class DomFamily:
         meta, body = vlib.read_replay(path)
         d = workdir(pid)
         vlib.build_harness(); vlib.build_model()
+        if meta.get("kind") == "refgen":
+            rc, o, _ = vlib.run([vlib.harness_bin()] + body[0].split()[1:], timeout=3000)
+            bad = [l for l in o.split("\n") if l.startswith(pid + " refgen")]
+            for l in bad:
+                log("oracle: " + l)
+            return 1 if (bad or rc != 0) else 0
         if meta.get("kind") != "domops":
             log("replay names a broken obligation, not an input: " + meta.get("broken", meta.get("what", "")))
             return 1
@@ -1729,7 +1746,39 @@ class Migration(ImplOracleProperty):
         res = [("XML write and read paths (xmlfile-run, stream mig)", lines, bmap, "xmlfile",
                 st.get("c15_checked_write", 0) + st.get("c15_checked_read", 0))]
         res += binary_migration_stage(pid, d, seed, tier)
+        res += custom_database_stage(pid, d, seed, out)
         return res
+
+    def replay(self, pid, path):
+        meta, body = vlib.read_replay(path)
+        if meta.get("kind") != "migcustom":
+            return ImplOracleProperty.replay(self, pid, path)
+        vlib.build_harness()
+        d = workdir(pid)
+        sd = [l.split()[1] for l in body if l.startswith("seed ")]
+        import re
+        m = re.search(r"\): (\S+) " + pid + " ", meta.get("what", ""))
+        cid = m.group(1) if m else ""
+        files = [os.path.join(d, "replay-mc" + x) for x in (".cases", ".oracle", ".stats")]
+        vlib.run([vlib.harness_bin(), "migcustom-run", "--seed", sd[0] if sd else "1"] + files + (["--only", cid] if cid else []), timeout=3000)
+        bad = [l.rstrip("\n") for l in open(files[1]) if (" " + pid + " ") in l]
+        for l in bad:
+            log("oracle: " + l)
+        return 1 if bad else 0
+
+
+def custom_database_stage(pid, d, seed, out):
+    """C15 under a reflection database other than the bundled one (harness/src/migcustom.rs): subclasses only the custom
+    database knows, four paths with that database on both ends, plus the binary write path with the explicit value under
+    an alias spelling in 8 processes (the alias sets iterate in a per-process hash order)"""
+    files = [os.path.join(d, "mc" + x) for x in (".cases", ".oracle", ".stats")]
+    rc, o, _ = vlib.run([vlib.harness_bin(), "migcustom-run", "--seed", str(seed)] + files, timeout=3000)
+    if rc != 0:
+        raise RuntimeError("harness migcustom-run failed: " + o[-1500:])
+    lines = [l.rstrip("\n") for l in open(files[1]) if len(l.split(" ", 3)) >= 3 and l.split(" ", 3)[1] == pid]
+    st = json.load(open(files[2]))
+    out.coverage["custom_database_stage"] = st
+    return [("custom reflection database, four paths (migcustom-run)", lines, dict(vlib.read_blocks(files[0])), "migcustom", st.get("cases", 0))]
 
 
 def binary_migration_stage(pid, d, seed, tier):
